@@ -170,3 +170,91 @@ pub fn replay(args: &Args) {
         }
     });
 }
+
+/// C36, real races: the invariants MutexW / MutexRW of PageLocks.tla monitored on a shadow state while real threads
+/// hammer the real PageLockManager (no schedule points: the interleavings are whatever the machine produces, also
+/// inside regions that have no hook). Writers and readers of one hot page, plus threads that keep other pages of the
+/// table busy (same shards). The shadow counters are changed only while the real lock is held (after the acquisition
+/// returned, before the guard is dropped), so a violated invariant is two holders admitted by the real lock.
+pub fn stress(args: &Args) {
+    use std::sync::atomic::{AtomicBool, AtomicI64, AtomicU64, Ordering};
+    let ms = args.num("ms", 3000) as u64;
+    let writers = args.num("writers", 2);
+    let readers = args.num("readers", 3);
+    let others = args.num("others", 2);
+    let out = args.get("out", "/dev/stdout");
+    let mgr: &'static PageLockManager = Box::leak(Box::new(PageLockManager::new()));
+    struct Shadow {
+        w: AtomicI64,
+        r: AtomicI64,
+    }
+    let hot: &'static Shadow = Box::leak(Box::new(Shadow { w: AtomicI64::new(0), r: AtomicI64::new(0) }));
+    let stop: &'static AtomicBool = Box::leak(Box::new(AtomicBool::new(false)));
+    let two_writers: &'static AtomicU64 = Box::leak(Box::new(AtomicU64::new(0)));
+    let writer_with_reader: &'static AtomicU64 = Box::leak(Box::new(AtomicU64::new(0)));
+    let acq: &'static AtomicU64 = Box::leak(Box::new(AtomicU64::new(0)));
+    let mut hs = vec![];
+    for _ in 0..writers {
+        hs.push(std::thread::spawn(move || {
+            while !stop.load(Ordering::Relaxed) {
+                let g = mgr.page_write(1, 100);
+                let w = hot.w.fetch_add(1, Ordering::SeqCst) + 1;
+                let r = hot.r.load(Ordering::SeqCst);
+                if w != 1 {
+                    two_writers.fetch_add(1, Ordering::Relaxed);
+                }
+                if r != 0 {
+                    writer_with_reader.fetch_add(1, Ordering::Relaxed);
+                }
+                std::hint::spin_loop();
+                hot.w.fetch_sub(1, Ordering::SeqCst);
+                drop(g);
+                acq.fetch_add(1, Ordering::Relaxed);
+            }
+        }));
+    }
+    for _ in 0..readers {
+        hs.push(std::thread::spawn(move || {
+            while !stop.load(Ordering::Relaxed) {
+                let g = mgr.page_read(1, 100);
+                hot.r.fetch_add(1, Ordering::SeqCst);
+                if hot.w.load(Ordering::SeqCst) != 0 {
+                    writer_with_reader.fetch_add(1, Ordering::Relaxed);
+                }
+                hot.r.fetch_sub(1, Ordering::SeqCst);
+                drop(g);
+                acq.fetch_add(1, Ordering::Relaxed);
+            }
+        }));
+    }
+    for k in 0..others {
+        hs.push(std::thread::spawn(move || {
+            let mut p = 0u32;
+            while !stop.load(Ordering::Relaxed) {
+                // other pages of the same table: some of them live in the hot page's shard
+                let page = 101 + (p % 256);
+                if (p + k as u32) % 2 == 0 {
+                    drop(mgr.page_write(1, page));
+                } else {
+                    drop(mgr.page_read(1, page));
+                }
+                p = p.wrapping_add(1);
+                acq.fetch_add(1, Ordering::Relaxed);
+            }
+        }));
+    }
+    let t0 = std::time::Instant::now();
+    while t0.elapsed().as_millis() < ms as u128 && two_writers.load(Ordering::Relaxed) + writer_with_reader.load(Ordering::Relaxed) == 0 {
+        std::thread::sleep(std::time::Duration::from_millis(20));
+    }
+    stop.store(true, Ordering::Relaxed);
+    for h in hs {
+        let _ = h.join();
+    }
+    let (pages_left, tables_left) = mgr.verif_table_sizes();
+    let rec = json!({"ms": t0.elapsed().as_millis() as u64, "acquisitions": acq.load(Ordering::Relaxed),
+                     "two_writers": two_writers.load(Ordering::Relaxed), "writer_with_reader": writer_with_reader.load(Ordering::Relaxed),
+                     "entries_left": pages_left, "table_entries_left": tables_left,
+                     "threads": {"writers": writers, "readers": readers, "others": others}});
+    std::fs::write(&out, format!("{}\n", rec)).ok();
+}
